@@ -67,11 +67,12 @@ def run(c):
     c.go2coq_sources = ["filters.go", "filters_types.go", "filters_state.go", "filters_helpers.go"]   # private translator build: another family's generator cannot break this check
     c.rule = ("random Where() trees (depth<=5) over 12 atomic predicates (one of them a custom filter that panics) and "
               "comparisons of Line/Type.Size/Value.Int()/Text against constants (either side) and other captures, each "
-              "run on 40 probe-site shapes; a case is distinct by its DSL text, non-trivial when it accepts some and "
+              "run on 74 probe sites (42 in a file on disk, 16 non-gofmt ones in a file that exists in memory only and is analysed with 32-bit sizes, "
+              "the same 16 in a file whose saved version is older and shorter); constants in every literal spelling / folded form; a case is distinct by its DSL text, non-trivial when it accepts some and "
               "rejects some site, panics, or is refused at load; law families relate 10 rules over the same operands; "
               "shared-spelling families: 6 groups in one engine (one or two rules files) whose Where() text is identical "
-              "over named constants (function-local, file-level shadowed by some groups, or literals inside an equally "
-              "named group-local macro) with different values per group -- one family per kind of constant-carrying filter "
+              "over named constants (function-local, file-level shadowed by some groups, literals in every spelling inside an equally "
+              "named group-local macro, or arguments of such a macro) with different values per group -- one family per kind of constant-carrying filter "
               "(Line/Type.Size/Value.Int()/Text either side, list captures, regexps, type strings, kinds, node tags, "
               "Contains patterns) plus random trees; non-trivial when the groups' values differ")
     c.trusted += [
